@@ -31,6 +31,24 @@ def big_gap_program(x, dt, gap):
             "model": {"sigs": {"1": {"dt": dt, "bits": progs.WIDTH[dt], "norm": list(n), "length": L}}}}
 
 
+def overlap_program(x, dt, n1, ov, n2, first=0):
+    """A partial overlap of `ov` samples at a chosen (also sub-byte unaligned) position, then the whole signal read back."""
+    spd, sdf = (1000, 100)
+    ops = [{"op": "wopen"}, {"op": "source", "id": 1, "name": ["lit", "s"]},
+           {"op": "signal", "id": 1, "src": 1, "dt": dt, "rate": 1000, "spd": spd, "sdf": sdf, "eps": 100, "sumdf": 10,
+            "name": ["lit", "ov"], "units": ["lit", "u"]},
+           {"op": "fsr", "sig": 1, "id": first, "n": n1}, {"op": "fsr", "sig": 1, "id": first + n1 - ov, "n": n2},
+           {"op": "fsr", "sig": 1, "id": first + n1 - ov + n2, "n": 40},
+           {"op": "wclose"}, {"op": "ropen"}, {"op": "len", "sig": 1}]
+    L = n1 - ov + n2 + 40
+    for (s_, n_) in [(0, L), (max(0, n1 - ov - 3), min(L, 30)), (n1 - 1, min(20, L - n1 + 1)), (L - 40, 40)]:
+        ops.append({"op": "rd", "sig": 1, "start": s_, "n": n_})
+    ops.append({"op": "rclose"})
+    n = progs.normalise(dt, spd, sdf, 100, 10)
+    return {"x": x, "kind": "c09-overlap", "feat": ["overlap", "overlap-" + dt, "type-" + dt], "ops": ops,
+            "model": {"sigs": {"1": {"dt": dt, "bits": progs.WIDTH[dt], "norm": list(n), "length": L}}}}
+
+
 def run(tier):
     ck = C.Check("C09")
     rng = random.Random(C.seed() * 7919 + 9)
@@ -51,6 +69,11 @@ def run(tier):
         P.append(p)
     for dt in (["u16", "i32", "f32", "f64", "u64", "u8", "u1"] if thorough else ["u16", "f32", "i64", "u4"]):
         P.append(big_gap_program(len(P) + 1, dt, 40000 if progs.WIDTH[dt] >= 8 else 300000))
+    # overlaps whose length is not a whole number of bytes, before / at / after block boundaries, for every narrow type
+    for dt in ["u1", "u4", "i4"] + (["u8", "u16", "f32"] if thorough else ["u8"]):
+        per = max(1, 8 // progs.WIDTH[dt])
+        for (n1, ov, n2) in [(100, 5, 37), (100, 1, 9), (1995, 3, 20), (1000, 7, 1200), (64, 63, 70)] + ([(33, 2, 5), (2001, 1, 3)] if thorough else []):
+            P.append(overlap_program(len(P) + 1, dt, n1, ov, n2, first=0 if (n1 + ov) % 2 else 3))
     trace, v, other = apicheck.run_api(ck, P, "c09", {"C01", "C09"})
     ngap = sum(1 for p in P if "gap" in p["feat"])
     nov = sum(1 for p in P if "overlap" in p["feat"])
